@@ -491,6 +491,127 @@ def clause_validate_then_apply(prog, rep):
             if not bad and not late:
                 rep.ok("validate-then-apply", "%s/MlsGroup::%s" % (ents, c.name), "no fallible input decoder follows the state change on the Ok spine", c.loc())
     rep.floor("validate-then-apply", "state-advancing MLS calls on the receive path", n, 3)
+    clause_storage_bounds_after_merge(prog, rep, scope)
+
+
+def _is_group_data_decode(y):
+    return y.name in ("from_group", "from_group_context") and last_seg(y.self_adt) == "NostrGroupDataExtension"
+
+
+def _pre_merge_bounds(prog, pre_calls):
+    """{extension field: smallest integer bound} enforced by explicit refusals inside the pre-merge decoders (none today)"""
+    out = {}
+    for x in pre_calls:
+        for t in prog.call_targets(x):
+            for q in sorted(prog.extent(t)):
+                g = prog.fns.get(q)
+                if not g or g.crate != "mdk_core" or g.is_test_like():
+                    continue
+                for eb in sorted(A.err_exit_blocks(g) | set(bb for bb, st in g.stmts() if st.get("k") == "agg" and last_seg(st.get("adt")) == "Result" and st.get("variant") == "Err")):
+                    for w in A.control_dependent_switches(g, eb):
+                        l = A._opl(g.term(w)["discr"])
+                        if l is None:
+                            continue
+                        og = A.origins(prog, g, l, scope={g.path}, max_frames=0, _follow_callers=False)
+                        ints = [c["int"] for _, _, c in og.consts if isinstance(c, dict) and isinstance(c.get("int"), int) and c["int"] > 1 and c.get("ty") in ("usize", "u64", "u32")]
+                        if not ints or not og.has_call(lambda y: y.name == "len"):
+                            continue
+                        for fld in og.fields:
+                            out[fld] = min(out.get(fld, min(ints)), min(ints))
+    return out
+
+
+def clause_storage_bounds_after_merge(prog, rep, scope, rule="validate-then-apply"):
+    """the storage layer refuses records it finds too large (name / description length, admin and relay counts).  The group data a peer's
+    commit installs is written by the metadata sync *after* MlsGroup::merge_staged_commit: a value above the receiver's storage bound makes
+    the sync fail when the MLS epoch has already advanced, so every such bound must already have been enforced before the merge"""
+    import os
+    import sys
+    sys.path.insert(0, os.path.dirname(os.path.abspath(__file__)))
+    import c16
+    limits = c16.limit_defaults(prog)
+    examined = 0
+    seen = set()
+    for p in sorted(scope):
+        f = prog.fns[p]
+        for c in f.live_calls():
+            if not K.is_mls_call(c, "merge_staged_commit") or "to" not in c.t:
+                continue
+            after = f.reachable_from(c.t["to"])
+            pre = [x for x in f.live_calls() if x is not c and x.bb not in after and A.ReachCache(prog, _is_group_data_decode).call(x) and A.succ_dominated(f, c.bb, [x])]
+            pre_bounds = _pre_merge_bounds(prog, pre)
+            for x in f.live_calls():
+                if x.bb not in after or x is c:
+                    continue
+                for t in prog.call_targets(x):
+                    if t.crate != "mdk_core":
+                        continue
+                    for q in sorted(prog.extent(t)):
+                        g = prog.fns.get(q)
+                        if not g or g.crate != "mdk_core" or g.is_test_like():
+                            continue
+                        for ci in g.live_calls():
+                            if not ((ci.trait or "").startswith("mdk_storage_traits::") and ci.name.startswith(("save_", "replace_"))):
+                                continue
+                            for backend in c16.BACKENDS:
+                                impls = [h for h in prog.find(name=ci.name, crate=backend) if not h.is_closure() and "mdk_storage_traits" in h.path]
+                                if not impls:
+                                    continue
+                                refs, _ = c16.validation_refusals(prog, impls[0], limits)
+                                for r in refs:
+                                    for (ai, fld) in sorted(r["atoms"], key=str):
+                                        if ai - 1 >= len(ci.args) or "p" not in ci.args[ai - 1]:
+                                            continue
+                                        src = _peer_source(prog, g, ci.args[ai - 1]["p"][0], fld)
+                                        if src is None:
+                                            continue
+                                        key = (backend, ci.name, fld or src)
+                                        if key in seen:
+                                            continue
+                                        seen.add(key)
+                                        examined += 1
+                                        inst = "MDK::process_message/MlsGroup::merge_staged_commit/storage-bound/%s/%s/%s" % (
+                                            backend.replace("mdk_", "").replace("_storage", ""), ci.name, fld or src)
+                                        pb = pre_bounds.get(src)
+                                        rep.check(pb is not None and pb <= r["bound"][0], rule, inst,
+                                                  "the decoded group data's `%s` is refused above %d before the merge; %s's bound %s (%d) cannot fire afterwards"
+                                                  % (src, pb or 0, ci.name, r["bound"][1], r["bound"][0]),
+                                                  "%s backend: %s refuses a record whose %s exceeds %s (%d); the value comes from the group data a peer's commit "
+                                                  "installs (`%s`) and is written by %s after MlsGroup::merge_staged_commit, and nothing before the merge enforces that "
+                                                  "bound: the event is reported as failed although the MLS epoch advanced, and the stored record no longer mirrors the "
+                                                  "MLS state" % (backend, ci.name, fld or src, r["bound"][1], r["bound"][0], src, g.label()), ci.loc())
+    rep.floor(rule, "storage bounds on peer-installed group data written after the merge", examined, 5)
+
+
+def _peer_source(prog, g, local, fld):
+    """the NostrGroupDataExtension field a storage argument (or its field `fld`) is filled from in g, if it comes from the decoded group data"""
+    cands = []
+    if fld is None:
+        cands.append(("whole", local))
+    else:
+        chain = set(x for x in A.copy_sources(g, local) if isinstance(x, int))
+        for bb, st in g.stmts():
+            if st["d"] and st["d"][0] in chain and ("." + fld) in [e for e in st["d"][1:] if isinstance(e, str)]:
+                for o in st.get("o", []):
+                    if "p" in o:
+                        cands.append(("store", o))
+            if st.get("k") == "agg" and st.get("fields") and len(st["d"]) == 1 and st["d"][0] in chain:
+                o = A.agg_field_operand(st, fld)
+                if o and "p" in o:
+                    cands.append(("store", o))
+    for kind, x in cands:
+        l = x if kind == "whole" else x["p"][0]
+        og = A.origins(prog, g, l, scope={g.path}, max_frames=0, _follow_callers=False)
+        if not og.has_call(_is_group_data_decode):
+            continue
+        names = []
+        if kind == "store":
+            names = [e[1:] for e in x["p"][1:] if isinstance(e, str) and e.startswith(".") and not e[1:].isdigit()]
+        if not names:
+            for gg, pl in og.places:
+                names += [e[1:] for e in pl[1:] if isinstance(e, str) and e.startswith(".") and not e[1:].isdigit()]
+        return names[-1] if names else "group-data"
+    return None
 
 
 def _decodes_group_data(prog, x):
